@@ -140,7 +140,13 @@ class TrackObs(Observer):
                 cp = asm._peak['pin'][key]
                 zz = float(cp[2][1]) if len(cp[2]) > 1 else 0.0
                 codeP.append((float(cp[0]), zz))
+        # the region that advanced this step is the one whose own bounds
+        # (from the input) contain the step
+        zr = getattr(reg, 'z', None)
+        inreg = int(zr is not None and zlo >= float(zr[0]) - 1e-9
+                    and zhi <= float(zr[1]) + 1e-9)
         self.raw.append({
+            'inreg': inreg,
             'a': ai + 1, 'k': k, 'r': int(pre.ridx),
             'rod': int(bool(reg.is_rodded)), 'zlo': zl(zlo), 'zhi': zl(zhi),
             'dF': dF, 'dS': dS, 'dG': dG, 'cF': cF, 'cG': cG, 'lossQ': lossQ,
@@ -181,6 +187,7 @@ class TrackObs(Observer):
             cp = [[qT(v), zl(h)] for v, h in e['codeP']]
             ev.append({
                 'e': 'Track', 'a': e['a'], 'k': e['k'], 'r': e['r'],
+                'inreg': e['inreg'],
                 'rod': e['rod'], 'zlo': e['zlo'], 'zhi': e['zhi'],
                 'exact': self.exact,
                 'dF': qs(e['dF']), 'dS': qt(e['dS']), 'dG': qs(e['dG']),
